@@ -8,7 +8,8 @@ use serde_json::json;
 
 fn eps_alphabet() -> Vec<f64> {
     let h = std::f64::consts::FRAC_1_SQRT_2;
-    vec![-1.0, 0.0, 0.25, 0.5, h - 1e-9, h + 1e-9, 1.0, std::f64::consts::SQRT_2, 2.0, 5.0, 100.0]
+    // 1e-20: positive but below machine epsilon (still a tolerance: exactly collinear / repeated vertices go, nothing else does)
+    vec![-1.0, 0.0, 1e-20, 0.25, 0.5, h - 1e-9, h + 1e-9, 1.0, std::f64::consts::SQRT_2, 2.0, 5.0, 100.0]
 }
 fn d2_pt_seg_f(q: IP, s: IP, e: IP) -> f64 {
     d2_hp_seg(&HP::int(q), s, e).f()
@@ -245,6 +246,32 @@ pub fn run(mut run: Run) -> i32 {
                             }
                         }
                         // ring simplification must equal the LineString algorithm on the same closed sequence when it respects the minimum
+                    }
+                }
+            }
+            // several DIFFERENT interior rings (the ring and two translated copies): every output ring is the simplification of the input ring at
+            // the same position
+            if idx % 5 == 0 {
+                let shift = |dx: i64, dy: i64| -> LineString<f64> { ls(&ring.iter().map(|p| (p.0 + dx, p.1 + dy)).collect::<Vec<IP>>()) };
+                let pg3 = Polygon::new(ls(&ring), vec![shift(10, 0), shift(0, 10), shift(20, 20)]);
+                acc.evals += 3;
+                for (what, res) in [
+                    ("Polygon::simplify", guard(|| pg3.simplify(e))),
+                    ("Polygon::simplify_vw", guard(|| pg3.simplify_vw(e))),
+                    ("Polygon::simplify_vw_preserve", guard(|| pg3.simplify_vw_preserve(e))),
+                ] {
+                    match res {
+                        Err(p) => acc.viol(format!("{} panic (three interior rings)", what), idx, || json!({"ring": format!("{:?}", inp), "epsilon": e, "panic": p})),
+                        Ok(o) => {
+                            let ok = o.interiors().len() == 3
+                                && o.interiors().iter().zip(pg3.interiors()).all(|(got, orig)| {
+                                    let (gc, oc) = (coords_of(got), coords_of(orig));
+                                    subseq_positions(&oc, &gc).is_some() && gc.first() == oc.first() && (e > 0.0 || gc == oc)
+                                });
+                            if !ok {
+                                acc.viol(format!("{}: an output interior ring is not the simplification of the input ring at the same position (three different interior rings)", what), idx, || json!({"polygon": format!("{:?}", pg3), "epsilon": e, "output": format!("{:?}", o)}));
+                            }
+                        }
                     }
                 }
             }
